@@ -28,6 +28,29 @@ def l1(bs):
     return bytes(bs).decode('latin-1')
 
 
+class TapLog(object):
+    """Records what the object under test delivers as READ text through the public logfile_read attribute (the asyncio
+    protocol does not pass through read_nonblocking, where blocking reads are recorded) and forwards to the log the
+    scenario attached, if any.  Public API only: a refactoring of private helpers cannot disconnect it."""
+
+    def __init__(self, inner, cb):
+        self.inner = inner
+        self.cb = cb
+
+    def write(self, s):
+        self.cb(s)
+        if self.inner is not None:
+            self.inner.write(s)
+
+    def flush(self):
+        if self.inner is not None:
+            self.inner.flush()
+
+
+def tap_reads(child, cb):
+    child.logfile_read = TapLog(child.logfile_read, cb)
+
+
 class Run(object):
     """One run: world + kernel + child object + logs."""
 
@@ -203,7 +226,9 @@ class Run(object):
                 pl = [pattern_list]
             else:
                 pl = list(pattern_list)
-            pl = [p if p in (TIMEOUT, EOF) else child._coerce_expect_string(p) for p in pl]
+            coerce = getattr(child, '_coerce_expect_string', None) or \
+                (lambda x: x if child.encoding is not None or isinstance(x, bytes) else x.encode('ascii'))
+            pl = [p if p in (TIMEOUT, EOF) else coerce(p) for p in pl]
             try:
                 r = orig_exact(child, pattern_list, timeout, searchwindowsize)
             except BaseException as e:
